@@ -1110,7 +1110,7 @@ class PyFat(object):
             ctime = (tm[3] << 11) | (tm[4] << 5) | (tm[5]//2)
             volume_id = cdate << 16 | ctime
 
-        num_sec = math.ceil(size / sector_size)
+        num_sec = size // sector_size
         num_sec_to_sec_per_clus = {
             PyFat.FAT_TYPE_FAT32: [
                (66600, 0),      # disks up to  32.5 MB, error
